@@ -122,7 +122,36 @@ class Ctx:
                 ob.sat += 1
             else:
                 ob.unknown += 1
+        self._cross_check(s, r, ob)
         return r, (s.model() if r == z3.sat else None)
+
+    def _cross_check(self, solver, r, ob):
+        """thorough tier (or VERIF_CROSSCHECK=1): a sample of the obligation queries is exported as SMT-LIB2 and decided again by cvc5;
+        a disagreement makes the obligation undecided (never a pass, never an alarm) and is recorded in the evidence"""
+        if not (self.tier == 'thorough' or os.environ.get('VERIF_CROSSCHECK') == '1') or r not in (z3.sat, z3.unsat):
+            return
+        self._cc_seen = getattr(self, '_cc_seen', 0) + 1
+        cc = self.extra.setdefault('cross_check', {'solver': 'cvc5', 'queries': 0, 'agree': 0, 'disagree': 0, 'inconclusive': 0, 'examples': []})
+        # deterministic sample: the first 10 queries, then every 50th, at most 60 per run
+        if cc['queries'] >= 60 or not (self._cc_seen <= 10 or self._cc_seen % 50 == 0):
+            return
+        try:
+            smt = '(set-logic ALL)\n' + solver.to_smt2()
+            p = subprocess.run(['cvc5', '--lang', 'smt2', '--tlimit=20000'], input=smt, stdout=subprocess.PIPE, stderr=subprocess.PIPE, text=True, timeout=40)
+            out = p.stdout.strip().split('\n')[0] if p.stdout.strip() else ''
+        except Exception:
+            out = ''
+        cc['queries'] += 1
+        want = 'sat' if r == z3.sat else 'unsat'
+        if out == want:
+            cc['agree'] += 1
+        elif out in ('sat', 'unsat'):
+            cc['disagree'] += 1
+            cc['examples'].append({'obligation': ob.id if ob is not None else None, 'z3': want, 'cvc5': out})
+            if ob is not None:
+                ob.cross_disagree = True
+        else:
+            cc['inconclusive'] += 1
 
     def ob(self, oid, desc, functions=()):
         now = time.time()
@@ -250,6 +279,9 @@ class Ctx:
         wall = time.time() - self.t0
         if self.obligations and self.obligations[-1].wall is None:
             self.obligations[-1].wall = time.time() - self.obligations[-1].t_start
+        for o in self.obligations:
+            if getattr(o, 'cross_disagree', False) and o.status == 'discharged':
+                o.status = 'undecided'; o.detail = 'z3 and cvc5 disagree on a query of this obligation'
         n_ob = len(self.obligations)
         discharged = sum(1 for o in self.obligations if o.status == 'discharged')
         undecided = [o.id for o in self.obligations if o.status == 'undecided']
